@@ -667,6 +667,9 @@ def run(ctx):
         "rule": "every TLC CASE = placement of the 11 feature constructs (absent / entry file / only in an imported module; all "
                 "uniform subsets, mixed placements up to MaxMixed features) x project name x module layout (flat, nested); "
                 "non-trivial = at least one feature construct present; distinct by (placement, name, layout)",
+        "binding": "B1: each TLC case is one behaviour of Manifest.tla replayed in the real code (in process and through the CLI) and "
+                   "compared with the model's final state; traces_validated_against_impl counts these replays (there is no separate "
+                   "trace spec for C15)",
         "programs_in_process": len(cases),
         "programs_through_cli": len(idxs),
         "cases_with_failures_in_process": n_fail_cases,
